@@ -3,7 +3,7 @@
    state of the output location before the run. *)
 EXTENDS Integers, Sequences, FiniteSets, TLC, Json, SequencesExt
 CONSTANT Small
-Inputs   == {"valid", "validkw", "lexical", "syntax", "semantic", "dfaconflict", "lalrconflict", "missing", "isdir", "none"}
+Inputs   == {"valid", "validkw", "validnoterm", "validfull", "lexical", "syntax", "semantic", "dfaconflict", "lalrconflict", "missing", "isdir", "none"}
 OutFlags == {"default", "abs", "rel"}
 OutState == {"dir", "missing", "file"}
 NameFlag == {"none", "valid", "invalid", "keyword", "hyphen", "dot", "space", "slash", "underscore"}
